@@ -161,6 +161,31 @@ PROPS['C08'] = {
     'technique': 'contract-based deductive verification of the layout computation (PyVC on prophyc/model.py); bounded '
                  'stand-in: offsetof/sizeof of the generated raw header evaluated by g++ over a schema family',
 }
+_CXX_NOTE = ('Trusted: CxxVC/PyVC engine semantics, clang 14 / g++ 12 front ends, z3/cvc5, assumed library contracts '
+             '(std::vector, optional, ostream); environment assumptions in the evidence. Generated C++ is verified per '
+             'schema of an enumerated family (all values of each schema). Bounded stand-ins (sanitizer driver) are '
+             'reported separately and never counted as discharged. Recorded findings are listed in known_findings.json.')
+LEVEL_TEXT['C07'] = {'text': 'contracts on every decode primitive of decoder.hpp / message.hpp (bounds, exact advance, '
+                             'allocation bound, termination variants) and on every generated decoder of the schema family; '
+                             'all obligations discharged except those of one recorded finding', 'note': _CXX_NOTE}
+LEVEL_TEXT['C05'] = {'text': 'contracts on every encode primitive of encoder.hpp / message.hpp and on every generated '
+                             'encoder and get_byte_size of the schema family (returned cursor == get_byte_size, writes inside '
+                             'the region); PyVC contracts on the size computation of prophyc/model.py', 'note': _CXX_NOTE}
+LEVEL_TEXT['C03'] = {'text': 'layout obligations of the generated C++ codecs against specs/wire.py (cursor at the documented '
+                             'offset at every member, documented total size), scalar byte order by encode_int/decode_int '
+                             'bit-vector proofs, Python codec contracts (C01/C02); whole-message byte content of the C++ '
+                             'encoders only by the bounded stand-in', 'note': _CXX_NOTE}
+LEVEL_TEXT['C08'] = {'text': 'PyVC contracts on the padding computation of prophyc/model.py; the raw header itself '
+                             '(prophyc/generators/cpp.py, g++ layout) only by the bounded offsetof/sizeof stand-in',
+                     'note': 'Bounded: offsetof/sizeof of the generated raw header evaluated by g++ for a schema family. '
+                             'No contract on cpp.py was built.'}
+LEVEL_TEXT['C18'] = {'text': 'PyVC contracts on struct.__str__ / union.__str__ / field_to_string over opaque strings; CxxVC '
+                             'contracts on printer.hpp (stream-state frame, print_byte text, printers) and on the order of '
+                             'do_print calls of every generated print; character-level agreement of the two languages only '
+                             'by the bounded stand-in', 'note': _CXX_NOTE}
+LEVEL_TEXT['C19'] = {'text': 'PyVC contracts on the Python encoders with symbolic byte order; CxxVC full-width bit-vector '
+                             'proofs of encode_int / decode_int / scalar encoders for little, big and native', 'note': _CXX_NOTE}
+
 PROPS['C18'] = {
     'modules': ['contracts.c18_text'], 'static': ['vf.cxx_check:C18'], 'standins': ['cxx_codec'], 'cxx': True,
     'trusted': PYVC_TRUST + CXX_TRUST + ['assumed contract of std::ostream: flags and fill sticky, width consumed by the next '
